@@ -244,6 +244,14 @@ func (schemaCompiler) typeConstraintForJSONTypes(node ischema.Node, val bytes.By
 	h, ok := jsonTypesHandler[valStr]
 	if ok {
 		h(node)
+		if mixedNode, ok := node.(*ischema.MixedNode); ok {
+			// An inline `or` alternative takes its JSON type from the rule - a decimal
+			// is a float, an email a string - as "float" and "string" do below, not
+			// from the example it happens to be written next to.
+			if t, ok := jsonTypeOfSchemaType[valStr]; ok {
+				mixedNode.SetJsonType(t)
+			}
+		}
 	} else {
 		t := json.NewJsonType(val)                          // can panic
 		if mixedNode, ok := node.(*ischema.MixedNode); ok { // defined json type for mixed node
@@ -255,6 +263,16 @@ func (schemaCompiler) typeConstraintForJSONTypes(node ischema.Node, val bytes.By
 	if !node.SetRealType(valStr) {
 		panic(errs.ErrIncompatibleTypes.F(valStr))
 	}
+}
+
+// jsonTypeOfSchemaType the JSON type of the schema types which have exactly one.
+var jsonTypeOfSchemaType = map[string]json.Type{
+	"decimal":  json.TypeFloat,
+	"email":    json.TypeString,
+	"uri":      json.TypeString,
+	"uuid":     json.TypeString,
+	"date":     json.TypeString,
+	"datetime": json.TypeString,
 }
 
 var jsonTypesHandler = map[string]func(node ischema.Node){
